@@ -273,9 +273,15 @@ RESERVED_WORDS = frozenset(
 
 def _quote(segment: str) -> str:
     """Return a quoted path segment. Segments hold source text, still escaped."""
-    if '\\"' in segment:
-        # Only a double quoted segment can contain an escaped double quote.
-        return f'"{segment}"'
+    index = 0
+    while index < len(segment):
+        if segment[index] == "\\":
+            if segment[index + 1 : index + 2] == '"':
+                # Only a double quoted segment can contain an escaped double quote.
+                return f'"{segment}"'
+            index += 2  # Skip the escaped character. It could be a backslash.
+        else:
+            index += 1
     return "'" + segment.replace("'", "\\'") + "'"
 
 RE_PROPERTY = re.compile(r"[\u0080-\uFFFFa-zA-Z_][\u0080-\uFFFFa-zA-Z0-9_-]*")
